@@ -26,6 +26,12 @@ for hid in ids:
     sh(f"git -C /repo worktree remove --force {wt}")
     alarms = [k for k, v in res.items() if v["exit"] != 0]
     out["results"][hid] = {"applies": True, "tests": tests, "alarms": alarms, "detail": {k: res[k] for k in alarms}}
+    mp = os.path.join(V, "seeded", "harmless", hid, "meta.json")
+    meta = json.load(open(mp))
+    meta.update({"existing_tests_with_change": tests, "applies_to_repo_commit": out["repo_head"], "alarms": alarms,
+                 "checks": {k: {"exit": v["exit"], "violation_lines": [], "first_failure": v["first"]} for k, v in res.items()},
+                 "what_was_run": "scratch worktree of /repo HEAD + git apply patch.diff; pytest there; PRAATIO_REPO=<worktree> ./check Cxx --tier quick for all 20 checks (tools/harmless_sweep.py)"})
+    json.dump(meta, open(mp, "w"), indent=1)
     print(hid, tests, "alarms:", alarms, flush=True)
 sh(f"git -C {V} checkout -- evidence")
 json.dump(out, open(os.path.join(V, "seeded", "harmless", "SWEEP.json"), "w"), indent=1)
